@@ -28,13 +28,16 @@ def main():
     resource.setrlimit(resource.RLIMIT_AS, (mem, mem))
     logging.disable(logging.CRITICAL)
     import replay_parser
+    # the limit is on CPU time of this process (immune to load on the machine); a wall-clock limit 8x as long catches a parser that sleeps
+    signal.signal(signal.SIGPROF, on_alarm)
     signal.signal(signal.SIGALRM, on_alarm)
     for path in files:
         size_mb = os.path.getsize(path) / 1e6
         limit = base + per_mb * size_mb
         rec = {'file': os.path.basename(path), 'limit_s': round(limit, 1)}
         t0 = time.time()
-        signal.setitimer(signal.ITIMER_REAL, limit)
+        signal.setitimer(signal.ITIMER_PROF, limit)
+        signal.setitimer(signal.ITIMER_REAL, 8 * limit)
         try:
             info = replay_parser.ReplayParser(path, strict=(mode == 'strict')).get_info()
             rec['outcome'] = 'result'
@@ -50,6 +53,7 @@ def main():
             rec['outcome'] = 'escape'
             rec['exc'] = type(e).__name__
         finally:
+            signal.setitimer(signal.ITIMER_PROF, 0)
             signal.setitimer(signal.ITIMER_REAL, 0)
         rec['wall_s'] = round(time.time() - t0, 2)
         sys.stdout.write(json.dumps(rec) + '\n')
